@@ -229,6 +229,13 @@ class Gen:
             return "(" + ", ".join([self.target(d - 1) for _ in range(self.r.randint(1, 3))]) + ",)"
         return "[" + ", ".join([self.target(d - 1), "*" + self.ident()]) + "]"
 
+    def ctx_twin(self):
+        i, x, y = self.ident(), self.ident(), self.ident()
+        inner = self.r.choice([f"max({i} for {i} in {x})", f"[{i} for {i} in {x}][0]", f"({i} := {self.r.choice(NUM_LITS[:5])})",
+                               f"{{{i}: {y} for {i}, {y} in {x}}}[0]", f"(lambda: [{i} for {i} in {x}])", f"len({{{i} for {i} in {x} if {i}}})",
+                               f"[({i} := {y}), {i}][1]"])
+        return self.r.choice([f"{y}[{inner}]", f"{y}({inner}).{x}", f"{y}[{inner}][{i}]", f"{y}[{inner}:{inner}]"])
+
     def comp(self, d):
         parts = []
         for _ in range(self.r.randint(1, 2)):
@@ -442,6 +449,14 @@ class Gen:
         if k == 0:
             return [I + "pass"]
         if k == 1:
+            if r.random() < 0.15:
+                # the SAME expression as a target and as a value, holding sub-expressions whose own context is Store even
+                # when the whole is loaded (comprehension and generator targets, walrus targets): same expression up to
+                # load/store context, one `_hash` (seed C15-l: the context rewritten on the target node only)
+                t = self.ctx_twin()
+                return r.choice([[I + f"{t} = {t}"], [I + f"{t} = ({t} + 1)"], [I + f"del {t}", I + f"{self.ident()} = {t}"],
+                                 [I + f"for {t} in {t}:", I + "    pass"], [I + f"{t} += {t}"],
+                                 [I + f"({t}, {self.ident()}) = ({self.ident()}, {t})"]])
             return [I + f"{self.target(1)} = {e()}"]
         if k == 2:
             if self.wide():
